@@ -48,6 +48,7 @@ func checkC02(ctx *Ctx, r *Report) {
 	c02GoConstructorNames(ctx, r)
 	c02FourthHunt(ctx, r)
 	c16FourthHunt(ctx, r) // a union branch referring to a constant: the Go builder does not type-check
+	c09FifthHunt(ctx, r)  // Python methods shadowing imported modules; integer bounds that overflow int64 in the generated Go
 	c02RuntimeGuard(ctx, r)
 	c02SortedSearch(ctx, r)
 	c02SortedSearchSelfTest(ctx, r)
